@@ -212,6 +212,21 @@ func Handle(c *core.Check, st core.State) {
 						site += "(" + cv.Type().FriendlyName() + ")"
 					}
 				}
+				if small.K == "cond" {
+					// root cause: the arm that is not selected fails for one of the two contents; its
+					// diagnostics are dropped but its placeholder still takes part in typing the result
+					for _, arm := range small.Sub[1:] {
+						se, sd := hclsyntax.ParseExpression([]byte(e1.Render(arm, e1.Layout{})), "arm.hcl", hcl.InitialPos)
+						if sd.HasErrors() {
+							continue
+						}
+						_, d0 := se.Value(&hcl.EvalContext{Variables: e1.With(sc0, extra), Functions: funcs})
+						_, d1 := se.Value(&hcl.EvalContext{Variables: e1.With(sc1, extra), Functions: funcs})
+						if d0.HasErrors() != d1.HasErrors() {
+							site = "cond/unselected-arm-error"
+						}
+					}
+				}
 				if !c.Violation("mark-lost/"+p.how+"/"+site,
 					fmt.Sprintf("%q: with %s = %s the result is %s, with %s = %s it is %s; the result depends on the marked variable but does not carry its mark (smallest laundering sub-expression: %q)",
 						src, x, e1.Describe(p.a), e1.Describe(r[0]), x, e1.Describe(p.b), e1.Describe(r[1]), e1.Render(small, e1.Layout{})), vec) {
